@@ -130,6 +130,7 @@ class Prim(Contract):
     # -- call-site form
     def apply(self, I, args, kw):
         W, ctx = self.W, I.ctx
+        self.ctx = ctx
         cls = repo().get_class(self.cls_qual)
         node = cls.find("__init__")[1]
         inst = Instance(cls)
@@ -166,8 +167,13 @@ class Prim(Contract):
 
     def run(self, I, cfg):
         ctx = I.ctx
+        self.ctx = ctx
         W = C.world(I, has_seg=cfg.get("seg", False), inv=cfg.get("inv", ("b1", "b2")))
         self.W = W
+        if W.seg is not None:
+            from . import segprims
+            segprims.install_seg(I, W)
+            segprims.assume_seg_invariants(I, W, which=cfg.get("seg_inv", ("S",)))
         install_loopspecs(I, W)
         c = ctx.contracts
         c[C.WalkAssumed.qualname] = C.WalkAssumed(W)
@@ -200,6 +206,20 @@ class Prim(Contract):
             ctx.oblige(f"{q}/ensures:{lbl}", f, props=props)
         for lbl, f, props in self.check_fields(I, W, s0, env, inst):
             ctx.oblige(f"{q}/ensures:{lbl}", f, props=props)
+        if W.seg is not None and cfg.get("seg_inv"):
+            # C07 / C08 / C09: the segmentation invariants hold again after the primitive
+            from . import segspec
+            v1 = s1.v
+            which = cfg.get("seg_inv")
+            goals = []
+            if "S" in which:
+                goals += segspec.S_goals(W, v1)
+            if "R" in which:
+                goals += segspec.R_clauses(ctx, W, v1)
+            if "Q" in which:
+                goals += segspec.Q_clause(ctx, W, v1)
+            for lbl, f, props in goals:
+                ctx.oblige(f"{props[0]}/{q}/preserves:{lbl}", f, props=props, drop=("cache.", "inv.C06", "inv.C10"))
         return out
 
 
@@ -309,7 +329,7 @@ class AddEdgeC(Prim):
         if W.seg is None:
             return None
         from . import segspec
-        return segspec.add_edge_iou(W, s0, s1, u, w)
+        return segspec.add_edge_iou(W, s0, s1, u, w, self.ctx)
 
     def fields(self, I, W, s0, env):
         at = env.get("attributes")
@@ -357,7 +377,7 @@ class AddNodeC(Prim):
         rp = None
         if W.seg is not None:
             from . import segspec
-            rp = segspec.add_node_attrs(W, s0, s1, env, node)
+            rp = segspec.add_node_attrs(W, s0, s1, env, node, self.ctx)
             out += segspec.add_node_seg(W, s0, s1, env, node)
         if rp is None:
             out.append(("attrs-of-node-set", forall([a_, k_], v1.A(a_, k_) == z3.If(AND(a_ == node, has(k_)), norm(at(k_)), v0.A(a_, k_))), ("C01",)))
@@ -559,7 +579,11 @@ PRIMS = [DeleteEdgeC, AddEdgeC, AddNodeC, DeleteNodeC, UpdateNodeAttrsC, UpdateT
 
 
 def install_prim_contracts(I, W, which=None):
-    for cls in PRIMS:
+    prims = list(PRIMS)
+    if W.seg is not None:
+        from .segprims import UpdateNodeSegC
+        prims.append(UpdateNodeSegC)
+    for cls in prims:
         if which is None or cls.__name__ in which:
             c = cls(W)
             I.ctx.contracts[c.qualname] = c
@@ -568,7 +592,11 @@ def install_prim_contracts(I, W, which=None):
 def units(cfg=None, names=None):
     from pyvc.verify import Unit
     out = []
-    for cls in PRIMS:
+    prims = list(PRIMS)
+    if (cfg or {}).get("seg"):
+        from .segprims import UpdateNodeSegC
+        prims.append(UpdateNodeSegC)
+    for cls in prims:
         if cls is UpdateTrackIDsC:
             continue
         if names and cls.__name__ not in names:
@@ -613,6 +641,10 @@ class InvertPrim(Contract):
         W = C.world(I, has_seg=cfg.get("seg", False), inv=("forest", "trackids", "lineage", "b1", "b1l", "b2", "segfacts"))
         W.with_lineage = True
         W.lineage_lookup_contract = True
+        if W.seg is not None:
+            from . import segprims
+            segprims.install_seg(I, W)
+            segprims.assume_seg_invariants(I, W, which=("S", "R", "Q"))
         prim = self.prim
         prim.W = W
         install_loopspecs(I, W)
@@ -622,6 +654,7 @@ class InvertPrim(Contract):
         # what is executed for real here are the inverse() methods
         install_prim_contracts(I, W)
         prim = ctx.contracts[prim.qualname]
+        prim.ctx = ctx
         cls = repo().get_class(prim.cls_qual)
         node = cls.find("__init__")[1]
         args, kw = prim.symbolic_args(I, W)
@@ -692,7 +725,11 @@ UpdateTrackIDsC.invertible_here = _utid_inv_here
 def invert_units(cfg=None, names=None):
     from pyvc.verify import Unit
     out = []
-    for cls in PRIMS:
+    prims = list(PRIMS)
+    if (cfg or {}).get("seg"):
+        from .segprims import UpdateNodeSegC
+        prims.append(UpdateNodeSegC)
+    for cls in prims:
         if names and cls.__name__ not in names:
             continue
         c = InvertPrim(cls)
